@@ -114,7 +114,9 @@ pub fn negamax(
         return qsearch(pos, stats, alpha, beta, ply);
     }
 
-    if should_stop(stats) {
+    // The first iteration always runs to completion at the root, so that a legal
+    // move is available however small the budget is
+    if !(is_root && stats.depth <= 1) && should_stop(stats) {
         return 0;
     }
 
@@ -130,7 +132,8 @@ pub fn negamax(
         .count()
         >= if is_root { 3 } else { 2 };
 
-    if is_50move || is_threefold {
+    // A root that is already drawable by rule still has to produce a move
+    if !is_root && (is_50move || is_threefold) {
         return DRAW_SCORE;
     }
 
